@@ -24,6 +24,24 @@ class CUnsupported(Exception):
     pass
 
 
+class VRef(V):
+    """``&local``: the address of a local variable (out-parameter of an API call); the handler assigns st.env[ref]"""
+    __slots__ = ('ref',)
+
+    def __init__(self, name):
+        V.__init__(self, OBJ, z3.Const('address_of_' + name, Obj))
+        self.ref = name
+
+
+class VLit(V):
+    """a C string literal (format strings of PyArg_Parse*: read by the API model; message texts: ignored)"""
+    __slots__ = ('lit',)
+
+    def __init__(self, text):
+        V.__init__(self, OBJ, z3.Const('c_string_literal', Obj))
+        self.lit = text
+
+
 def c_axioms():
     return [C_NULL != NONE, C_NULL != ABSENT, C_NULL != NOTIMPL, z3.Not(is_dict(C_NULL)), z3.Not(is_seq(C_NULL)), z3.Not(is_list(C_NULL)),
             z3.Not(is_name(C_NULL)),
@@ -35,7 +53,7 @@ class CProc:
     """Contract of one C function."""
 
     def __init__(self, name, params, result=OBJ, requires=None, ensures=None, modifies=(), loops=None, api=None, globals=None,
-                 fields=None, note='', callees=None, split=None, hide=()):
+                 fields=None, note='', callees=None, split=None, hide=(), tuple_view=None):
         self.name = name
         self.key = 'c:' + name
         self.params = list(params)          # [(name, Ty)]
@@ -49,6 +67,7 @@ class CProc:
         self.fields = fields or {}          # struct member -> heap field name
         self.note = note
         self.callees = callees or {}        # static C functions called: name -> CProc (used by contract)
+        self.tuple_view = tuple_view        # (state, tuple object) -> SeqO term, when tuples are built item by item
         self.hide = tuple(hide)             # labels of ensures clauses that callers do not need (proved, but not assumed at call sites)
         self.split = split                  # Ctx (after a call) -> [z3 Bool]: case distinction made explicit at every call site
         #                                     (one path per case plus one for "none of them": nothing is lost)
@@ -122,6 +141,11 @@ class CExec:
             return z3.If(v.t, 1, 0)
         raise CUnsupported('pointer used as integer')
 
+    def tuple_contents(self, st, t):
+        """the items of a tuple object: its value (tuples are immutable), or the contract's own view (tuples under construction)"""
+        view = getattr(self.proc, 'tuple_view', None)
+        return view(st, t) if view else unbox_seq(t)
+
     def field(self, name):
         f = self.proc.fields.get(name, name)
         if f not in self.fields:
@@ -135,7 +159,7 @@ class CExec:
         if k == 'IntegerLiteral':
             return [(st, vint(int(n['value'])))]
         if k == 'StringLiteral':
-            return [(st, vobj(z3.Const('c_string_literal', Obj)))]      # message texts are not part of any contract
+            return [(st, VLit(n.get('value', '')))]      # message texts are not part of any contract
         if k == 'DeclRefExpr':
             name = n['referencedDecl']['name']
             if name in st.env:
@@ -152,6 +176,8 @@ class CExec:
                 name = inner['referencedDecl']['name']
                 if name in ADDRESS_OF:
                     return [(st, ADDRESS_OF[name])]
+                if name in st.env:
+                    return [(st, VRef(name))]
                 raise CUnsupported('address of %s' % name)
             if op == '!':
                 return [(s, vbool(z3.Not(self.truth(v)))) for s, v in self.ev(n['inner'][0], st)]
@@ -227,7 +253,7 @@ class CExec:
                 out = []
                 for s, o in self.ev(owner, st):
                     for s2, i in self.ev(n['inner'][1], s):
-                        sq = unbox_seq(o.t) if is_tuple else z3.Select(s2.heap.get('$list'), o.t)
+                        sq = self.tuple_contents(s2, o.t) if is_tuple else z3.Select(s2.heap.get('$list'), o.t)
                         out.append((s2, vobj(sq[self.as_int(i)])))
                 return out
             raise CUnsupported('array subscript')
@@ -387,7 +413,10 @@ class CExec:
                 ptr = is_pointer_type(d)
                 nxt = []
                 for s in states:
-                    if d.get('inner'):
+                    if d.get('inner') and strip(d['inner'][0]).get('kind') == 'InitListExpr':
+                        s.env[d['name']] = vobj(fresh('initlist_' + d['name'], Obj))      # static keyword tables: opaque
+                        nxt.append(s)
+                    elif d.get('inner'):
                         for s2, v in self.ev(d['inner'][0], s):
                             if ptr and v.ty.kind == 'int':
                                 v = vobj(C_NULL)
@@ -566,6 +595,8 @@ class CExec:
         for label, f in pre:
             st.assume(f)
         self.pre = [f for _, f in pre] + c_axioms()
+        if getattr(proc, 'on_entry', None):
+            proc.on_entry(self, st)          # ghost statement executed when the body is entered
         body = [c for c in self.f['inner'] if c['kind'] == 'CompoundStmt'][0]
         top = body.get('inner', [])
         label_pos = {}
